@@ -139,12 +139,14 @@ def cg_solver(A: Callable, b: Array, x0: Array = None, maxiter: int = 50) -> Arr
         """Function implementing one iteration of the conjugate gradient solver."""
         x, r, p, num = carry
         Ap = A(p)
-        alpha = num / (p.ravel().conj().T @ Ap.ravel())
+        den = p.ravel().conj().T @ Ap.ravel()
+        # an exactly zero residual gives num = den = 0: keep the iterate rather than computing 0 / 0
+        alpha = jnp.where(den == 0, 0.0, num / jnp.where(den == 0, 1.0, den))
         x = x + alpha * p
         r = r - alpha * Ap
         num_old = num
         num = r.ravel().conj().T @ r.ravel()
-        beta = num / num_old
+        beta = jnp.where(num_old == 0, 0.0, num / jnp.where(num_old == 0, 1.0, num_old))
         p = r + beta * p
 
         return (x, r, p, num), None
